@@ -70,6 +70,12 @@ def _run(ctx):
             txt = f.read()
             if "Invariant C34_Table is violated" not in txt and "invariant of C34_Table is equal to FALSE" not in txt:
                 raise lib.ToolError("the seeded fault past_start_waits_refresh of RunLoop.tla is not rejected by TLC")
+    if pid == "C32":
+        b5 = lib.tlc(ctx, "mc_runloop_bad_sanitize", "MC_RunLoop.tla", "MC_RunLoop_bad_sanitize.cfg", workers=2, timeout=600,
+                     expect_ok=False, count=False)
+        with open(b5["out"], errors="replace") as f:
+            if "is violated" not in f.read():
+                raise lib.ToolError("the seeded fault retry_despite_failed_sanitize of RunLoop.tla is not rejected by TLC")
     bad = lib.tlc(ctx, "mc_runloop_as_shipped", "MC_RunLoop.tla", "MC_RunLoop_as_shipped.cfg", workers=2, timeout=600,
                   expect_ok=False, count=False)
     with open(bad["out"], errors="replace") as f:
